@@ -1544,6 +1544,9 @@ M("RFM-counter-plain-u16-no-zero-step", ["C07", "C01"], [("@patch", "selftest/mu
 M("RFM-option-bits-expr-swapped", ["C09", "C01"], [("@patch", "selftest/mutants_rf/option-bits-expr-swapped.diff", "")], ["C09/bits/suboptions/no-local", "C01/bits/suboptions/no-local"])
 M("RFM-publish-dup-bit-expr-wrong", ["C09", "C01"], [("@patch", "selftest/mutants_rf/publish-dup-bit-expr-wrong.diff", "")], ["C09/bits/publish/dup"])
 M("RFM-free-fn-completion-before-flush", ["C13", "C04"], [("@patch", "selftest/mutants_rf/free-fn-completion-before-flush.diff", "")], ["C13/store/complete-after-flush", "C04/store/complete-after-flush"])
+M("C09-u16-little-endian", ["C09", "C01"], [(SER, "    fn serialize_u16(self, v: u16) -> Result<Self::Ok, Self::Error> {\n        self.push_bytes(&v.to_be_bytes())", "    fn serialize_u16(self, v: u16) -> Result<Self::Ok, Self::Error> {\n        self.push_bytes(&v.to_le_bytes())")], ["C09/prim/serialize_u16", "C01/prim/serialize_u16"])
+M("C08-read-u16-little-endian", ["C08", "C09"], [(DESER, "Ok(u16::from_be_bytes([self.pop()?, self.pop()?]))", "Ok(u16::from_le_bytes([self.pop()?, self.pop()?]))")], ["C08/prim/read_u16", "C09/prim/read_u16"])
+M("C08-u32-bytes-reversed", ["C08"], [(DESER, "visitor.visit_u32(u32::from_be_bytes(self.try_take_n(4)?.try_into().unwrap()))", "visitor.visit_u32(u32::from_be_bytes(self.try_take_n(4)?.try_into().unwrap()).swap_bytes())")], ["C08/prim/deserialize_u32"])
 M("RFM-predicates-pending-ignores-generation", ["C18"], [("@patch", "selftest/mutants_rf/predicates-pending-ignores-generation.diff", "")], ["C18/status/table"])
 
 # fourth round: organisational refactorings (guard clauses, sub-borrows, loop forms, private structs, generic helpers)
